@@ -136,7 +136,10 @@ where
 
         let last_chunk = (M - A..M)
             .map(|i| {
-                let is_end = ng.is_equal_to_fixed(layouter, &end, F::from(i as u64))?;
+                // The data may start at the first position of the last chunk
+                // (when 0 < len <= A), but it never ends there.
+                let limit = if i == M - A { &start } else { &end };
+                let is_end = ng.is_equal_to_fixed(layouter, limit, F::from(i as u64))?;
                 is_data = ng.xor(layouter, &[is_data.clone(), is_end])?;
                 Ok(is_data.clone())
             })
